@@ -433,6 +433,6 @@ SUBCHECKS = [
         budget={"quick": 110, "thorough": 1800}, what="DerivativeOfDynamicalMatrix (C, Py) == Richardson finite difference of DynamicalMatrix.run; Hermitian; none/wang NAC"),
     Sub("group_velocity", run=run_gv, strategy=gv_specs, examples={"quick": 400, "thorough": 12000}, shards={"quick": 8, "thorough": 16},
         budget={"quick": 110, "thorough": 1800}, what="reported group velocity == Cartesian gradient of the reported frequency on non-degenerate modes"),
-    Sub("gruneisen", run=run_gruneisen, strategy=gr_specs, examples={"quick": 200, "thorough": 6000}, shards={"quick": 8, "thorough": 16},
+    Sub("gruneisen", run=run_gruneisen, strategy=gr_specs, examples={"quick": 900, "thorough": 6000}, shards={"quick": 8, "thorough": 16},
         budget={"quick": 110, "thorough": 1800}, what="closed-form gamma for fc ~ V^(-2g) with (a)symmetric volume triples; band route; reduced mesh == full mesh"),
 ]
